@@ -101,7 +101,12 @@ def adversarial_catalogue():
                            '"{"a"}"', '"{\\"}"', '"\\"', '"\\\\"', '"{a{b}c}"', '"{def}"', '"{:=}"',
                            '"{\n}"', '"a\nb"', '"', '""', '""""', '""""""', '"""a"""', '"""a""', '""a"""',
                            '"{"{"{a}"}"}"', '"{a}{b}{c}"', '"{1 + }"', '"{(}"', '"{)}"', '"{!}"', '"{\t}"',
-                           '"é"', '"{é}"', '"""é"""', '"\r\n"', '"{x}" "{y}"']):
+                           '"é"', '"{é}"', '"""é"""', '"\r\n"', '"{x}" "{y}"',
+                           # string literals (empty, adjacent, doc-strings) INSIDE an interpolated expression, last and not last:
+                           # the token passes run on these token lists too, without the final end-of-file token
+                           '"{""}"', '"{a + ""}"', '"{"" "a"}"', '"{"a" ""}"', '"{"" ""}"', '"{"" "" ""}"', '"{f("")}"', '"{"" + a}"',
+                           '"{""""""}"', '"{"""a"""}"', '"{"""a""" "b"}"', '"{"a" """b"""}"', '"{"{""}"}"', '"{a}{""}"',
+                           '"{"" # c}"', '"{""\n}"', '"{"" }"', '"{ ""}"', '"{("")}"', '"{[""]}"', '"{"": 1}"']):
         add("string_%d" % i, "def x := %s\n" % s)
         add("string_stmt_%d" % i, "%s\n" % s)
         add("string_print_%d" % i, "def a := 1\nprint(%s)\nprint(a)\n" % s)
